@@ -238,6 +238,7 @@ def run(chk):
             # ---- directory objects: the payload is empty, the integrity assertions of the request still have to hold
             dres = dirobj_cases(chk, cl, label, rnd)
             unsigned_chunk_cases(chk, cl, label, rnd)
+            nolength_cases(chk, cl, label, rnd)
             chk.tie("gateway still running after the uploads", g.alive(), g.log_tail())
 
     # ---- two uploads to one key (or one part) in flight at the same time, in both temp-file strategies: the first has received its
@@ -407,6 +408,40 @@ def dirobj_cases(chk, cl, label, rnd):
                 chk.fail("c06:failed-upload-changed-key:dirobj:%s" % cor, "a refused PutObject of a directory object (%s, %d %s) changed the key's state from %r to %r" % (cor, resp.status, resp.code, before, state), view)
             out.append(view)
     return out
+
+
+def nolength_cases(chk, cl, label, rnd):
+    """PutObject and UploadPart sent with neither Content-Length nor Transfer-Encoding (an empty payload): the integrity values the
+    request carries are still compared with the (empty) payload"""
+    empty_sha = hashlib.sha256(b"").hexdigest()
+    r0 = cl.req("POST", "/bk1/nolen-mp" + label, query={"uploads": ""}); uid = r0.xml().findtext("UploadId") if r0.status == 200 and r0.xml() is not None else ""
+    n = 0
+    for target in ("put-new", "put-existing", "part"):
+        for cor in ("none", "wrong-sha256", "wrong-md5", "wrong-crc32"):
+            n += 1
+            key = "nolen%s%d" % (label, n); path = "/bk1/" + key; q = {}
+            if target == "put-existing":
+                chk.require(cl.req("PUT", path, body=b"previous content").status == 200, "c06:setup", "PUT failed")
+            if target == "part":
+                path = "/bk1/nolen-mp" + label; q = {"partNumber": str(n), "uploadId": uid}
+            hd = {}
+            if cor == "wrong-md5": hd["Content-MD5"] = base64.b64encode(hashlib.md5(b"not empty").digest()).decode()
+            if cor == "wrong-crc32": hd["x-amz-checksum-crc32"] = wrong_b64(cksum("crc32", b""))
+            r = cl.req("PUT", path, query=q, body=b"", headers=hd, payload_hash=hashlib.sha256(b"x").hexdigest() if cor == "wrong-sha256" else empty_sha, content_length=False, timeout=15)
+            if target == "part":
+                lp = cl.req("GET", path, query={"uploadId": uid})
+                stored = lp.status == 200 and ("<PartNumber>%d</PartNumber>" % n).encode() in (lp.body or b"")
+                changed = stored
+            else:
+                g = cl.req("GET", path)
+                changed = (g.status == 200 and g.body == b"") if target == "put-new" else not (g.status == 200 and g.body == b"previous content")
+            view = {"config": label, "target": target, "corruption": cor, "status": r.status, "code": r.code, "key_changed": changed}
+            chk.case(("c06-nolength", label, target, cor), True); chk.traces += 1
+            chk.count("nolength:%s:%s:%s" % (target, cor, "commit" if r.status == 200 else "fail"))
+            if cor != "none" and (r.status == 200 or changed):
+                chk.fail("c06:corrupt-upload-committed:no-content-length:%s" % cor, "[%s] a %s without Content-Length (empty payload) carrying %s was answered %d and %s" % (
+                    label, "UploadPart" if target == "part" else "PutObject", cor, r.status, "stored" if changed else "not stored"), view)
+    cl.req("DELETE", "/bk1/nolen-mp" + label, query={"uploadId": uid})
 
 
 def unsigned_chunk_cases(chk, cl, label, rnd):
